@@ -60,11 +60,32 @@ def enclosing_try(node: ast.AST, par: dict[int, ast.AST], stop: ast.AST, prog: P
     return None, ""
 
 
+def awaiter_only(prog: Program, fi: FuncInfo, call: ast.Call) -> bool:
+    """`helper(hook(...))` where the repository helper does nothing but test its argument with pure predicates and
+    await it (`if isawaitable(v): await v`): part of the hook invocation, not another effect"""
+    tg = prog.resolve_call(call, fi)
+    if len(tg) != 1 or tg[0].kind != "repo" or tg[0].func is None:
+        return False
+    g = tg[0].func
+    params = set(g.param_names())
+    for x in ast.walk(g.node):
+        if isinstance(x, ast.Call):
+            fname = x.func.attr if isinstance(x.func, ast.Attribute) else (x.func.id if isinstance(x.func, ast.Name) else "?")
+            if fname not in PURE_OK:
+                return False
+        if isinstance(x, ast.Await) and not (isinstance(x.value, ast.Name) and x.value.id in params):
+            return False
+        if isinstance(x, (ast.Attribute, ast.Subscript)) and isinstance(x.ctx, ast.Store):
+            return False
+        if isinstance(x, (ast.Raise, ast.Global, ast.Nonlocal, ast.Yield, ast.YieldFrom)):
+            return False
+    return True
+
+
 def hook_category(prog: Program, fi: FuncInfo, call: ast.Call) -> str | None:
-    for t in prog.resolve_call(call, fi):
-        if t.kind == "callback" and t.category in HOOKS:
-            return t.category
-    return None
+    """the hook role(s) of the callee, `a+b` when a shared helper is handed hooks of several roles"""
+    cats = sorted({t.category for t in prog.resolve_call(call, fi) if t.kind == "callback" and t.category in HOOKS})
+    return "+".join(cats) if cats else None
 
 
 def run(rep: Report, prog: Program, tier: str) -> None:
@@ -88,6 +109,7 @@ def run(rep: Report, prog: Program, tier: str) -> None:
     exc_kinds = [k for k in K.parent if K.is_sub(k, "Exception")]
     base_only = ["KeyboardInterrupt", "SystemExit", "CancelledError", "GeneratorExit", "OtherBase"]
     n_sites = 0
+    cats_seen: set[str] = set()
     for fi in prog.funcs.values():
         if fi.module.name.startswith(SKIP_MODULES):
             continue
@@ -99,6 +121,7 @@ def run(rep: Report, prog: Program, tier: str) -> None:
             if cat is None:
                 continue
             n_sites += 1
+            cats_seen.update(cat.split("+"))
             if par is None:
                 par = parents(fi.node)
             construct = f"{fi.qual}|{cat}"
@@ -133,7 +156,7 @@ def run(rep: Report, prog: Program, tier: str) -> None:
                     for x in ast.walk(st):
                         if isinstance(x, ast.Call) and x is not n:
                             fname = x.func.attr if isinstance(x.func, ast.Attribute) else (x.func.id if isinstance(x.func, ast.Name) else "?")
-                            if fname not in PURE_OK:
+                            if fname not in PURE_OK and not (n in x.args and awaiter_only(prog, fi, x)):
                                 others.append(ast.unparse(x)[:50])
                         if isinstance(x, (ast.Attribute, ast.Subscript)) and isinstance(x.ctx, ast.Store):
                             others.append("store " + ast.unparse(x)[:40])
@@ -175,9 +198,10 @@ def run(rep: Report, prog: Program, tier: str) -> None:
                         rep.ok("R15.1")
                     else:
                         rep.fail("R15.1", f"{fi.qual}|await-{sorted(cats)[0]}|unguarded", f"{fi.qual}: the awaitable returned by {sorted(cats)[0]} is awaited outside a swallowing guard", where=fi.where(n), function=fi.qual)
-    if n_sites < 7:
-        raise AnalysisError(f"C15: only {n_sites} hook call sites found (7 confirmed by reading: emit x2, _emit_breaker_event x2, _call_before_sleep, _call_before_sleep_async, timeline wrapper)")
-    rep.floor("R15.1", 7)
+    # not a count of today's call sites (shared helpers merge them): every hook role must have been seen being called
+    if cats_seen != HOOKS or n_sites < len(HOOKS):
+        raise AnalysisError(f"C15: hook call sites found for {sorted(cats_seen)} only ({n_sites} sites); on_metric, on_log and before_sleep must each be invoked somewhere")
+    rep.floor("R15.1", len(HOOKS))
     rep.floor("R15.2", 1)
 
 
